@@ -176,18 +176,46 @@ impl Storable for AnnotationDataSet {
     fn merge(&mut self, other: Self) -> Result<(), StamError> {
         let merge = self.config.merge;
         self.config.merge = true; //enable merge mode for underlying keys and data
+        // Key handles held by the data of `other` are only meaningful inside `other`:
+        // translate them (via the public key id) to the handles the keys have in this set.
+        let mut keymap: Vec<Option<DataKeyHandle>> = Vec::with_capacity(other.keys.len());
+        let mut result: Result<(), StamError> = Ok(());
         for key in other.keys {
             if let Some(key) = key {
-                self.insert(key.unbind())?;
+                match self.insert(key.unbind()) {
+                    Ok(handle) => keymap.push(Some(handle)),
+                    Err(e) => {
+                        result = Err(e);
+                        break;
+                    }
+                }
+            } else {
+                keymap.push(None);
             }
         }
-        for data in other.data {
-            if let Some(data) = data {
-                self.insert(data.unbind())?;
+        if result.is_ok() {
+            for data in other.data {
+                if let Some(data) = data {
+                    let key_handle = match keymap.get(data.key().as_usize()) {
+                        Some(Some(handle)) => *handle,
+                        _ => {
+                            result = Err(StamError::HandleError(
+                                "AnnotationDataSet.merge(): data refers to a key that does not exist in its own set",
+                            ));
+                            break;
+                        }
+                    };
+                    // insert_data() reuses existing data: by id if there is one, by (key,value) otherwise
+                    let id: BuildItem<AnnotationData> = data.id().map(|s| s.to_string()).into();
+                    if let Err(e) = self.insert_data(id, key_handle, data.value().clone(), true) {
+                        result = Err(e);
+                        break;
+                    }
+                }
             }
         }
         self.config.merge = merge; //reset merge mode
-        Ok(())
+        result
     }
 
     fn unbind(mut self) -> Self {
